@@ -308,8 +308,10 @@ class CompositeFrontend(ConstrainedFrontend):
     # Solving
     #
 
-    def _ensure_sat(self, extra_constraints):
-        if self._unsat or (len(extra_constraints) == 0 and not self.satisfiable()):
+    def _ensure_sat(self, extra_constraints):  # pylint:disable=unused-argument
+        # The query below only involves the children that share variables with the expression and the extra
+        # constraints; the other children must be satisfiable too for any answer to exist.
+        if self._unsat or not self.satisfiable():
             raise UnsatError("CompositeSolver is already unsat")
 
     def check_satisfiability(self, extra_constraints=(), exact=None):
@@ -510,15 +512,18 @@ class CompositeFrontend(ConstrainedFrontend):
         if len(combined_noncommons):
             _, merged_noncommon = combined_noncommons[0].merge(combined_noncommons[1:], merge_conditions)
 
-            if merged_noncommon.variables & set(merged._solvers):
-                # the merge conditions mention variables of a common solver: storing the merged solver under those
-                # names would silently drop the common solver (and its constraints), so join them properly
-                merged._add_dependent_constraints(merged_noncommon.variables, merged_noncommon.constraints)
-            else:
+            if merged_noncommon.variables and not merged_noncommon.variables & set(merged._solvers):
                 merged._owned_solvers.add(merged_noncommon)
                 merged._store_child(merged_noncommon)
+            else:
+                # Storing the merged solver under its variable names would silently drop a common solver whose
+                # variables the merge conditions mention, and a merged solver without variables (e.g. when every
+                # option is False) could not be stored at all: add its constraints the normal way instead
+                merged.add(merged_noncommon.constraints)
 
         merged.constraints = list(itertools.chain.from_iterable(a.constraints for a in merged._solver_list))
+        if merged._unsat:
+            merged.constraints.append(false())
         return True, merged
 
     def split(self):
